@@ -8,6 +8,8 @@ package tubes
 import (
 	"bytes"
 	"encoding/binary"
+	"encoding/json"
+	"flag"
 	"fmt"
 	"io"
 	"sync"
@@ -50,6 +52,47 @@ type c11Case struct {
 	// only then the drawn frames follow, about half of them aimed at these tubes (the generator writes their tube id
 	// and reliability bit into the frames, every other field stays as drawn).
 	Unread []c11Unread `json:"unread,omitempty"`
+	// Flood: the peer requests a tube for EVERY identifier of one parity or of both (of one class or of both). Nothing
+	// ties the identifier of an open request to the requester's parity, so the peer can occupy the identifiers the
+	// LOCAL side creates its own tubes from, all of them or all but a few.
+	Flood *c11Flood `json:"flood,omitempty"`
+	// Local: after the junk the LOCAL application creates tubes of its own (a forwarded connection, an authorization
+	// proxy). Every Create call must return - a tube, or an error such as ErrOutOfTubes - within 10 virtual seconds.
+	Local []c11Local `json:"local,omitempty"`
+}
+
+type c11Flood struct {
+	Class  int  `json:"class"`  // 0 unreliable, 1 reliable, 2 both
+	Parity int  `json:"parity"` // 0: the identifiers of the muxer under test (even), 1: the peer's own (odd), 2: all 256
+	Held   bool `json:"held"`   // the application keeps these tubes (does not close them); else it closes each at once, as for any tube it does not know
+	Free   int  `json:"free"`   // this many identifiers of each parity (the highest ones) are left out
+	After  bool `json:"after"`  // the flood follows the drawn frames instead of preceding them
+}
+
+type c11Local struct {
+	Rel   bool `json:"rel"`
+	TType int  `json:"ttype"`
+}
+
+// c11FloodFrames: one well-formed open request per identifier.
+func c11FloodFrames(fl c11Flood) []c11Frame {
+	var out []c11Frame
+	tt := 0x33
+	if fl.Held {
+		tt = c11HeldType
+	}
+	for class := 0; class < 2; class++ {
+		if fl.Class != 2 && fl.Class != class {
+			continue
+		}
+		for id := 0; id < 256-2*fl.Free; id++ {
+			if fl.Parity != 2 && id%2 != fl.Parity {
+				continue
+			}
+			out = append(out, c11Frame{Tube: id, Flags: class<<RELIdx | 1<<REQIdx, Short: -1, TType: tt})
+		}
+	}
+	return out
 }
 
 type c11Unread struct {
@@ -129,7 +172,30 @@ func c11TargetsControl(f c11Frame, ctlID byte) bool {
 
 func c11Run(t *testing.T) func(c c11Case, v *vlib.Verdict) {
 	return func(c c11Case, v *vlib.Verdict) {
+		ck, _ := json.Marshal(c)
+		if old, ok := c11HungVerdicts[string(ck)]; ok {
+			*v = old // rapid evaluates a failing case again; a frozen one costs a minute and leaves a spinning goroutine behind
+			return
+		}
 		res := vlib.Bubble(t, 60*time.Second, func() { c11Scenario(c, v) })
+		if res.Hung && len(c.Local) > 0 {
+			// The bubble froze: some goroutine neither finishes nor blocks durably, so the virtual clock cannot advance
+			// and no virtual bound can elapse. With local Create calls in the case that is what a Create spinning under
+			// the muxer lock looks like (everything else then waits for that mutex) - or an artifact. Decide by
+			// repeating that part of the case with real timers, outside any bubble.
+			defer func() { c11HungVerdicts[string(ck)] = *v }()
+			flag.Set("rapid.shrinktime", "1ms")
+			v2 := &vlib.Verdict{}
+			c11LocalRealtime(c, v2)
+			*v = vlib.Verdict{Labels: []string{"bubble-froze:re-run-in-real-time"}}
+			if !v2.OK() {
+				v.Failf(v2.Violations[0].Sig+":confirmed-in-real-time", "(the bubble froze; repeated with real timers) %s", v2.Violations[0].Detail)
+			} else {
+				v.Inconclusive = "bubble froze, the real-time re-run of the local Create calls is fine (C11)"
+				v.Note = firstLines(res.Stacks, 80)
+			}
+			return
+		}
 		if res.Hung {
 			v.Inconclusive = "bubble hung in real time (C11)"
 			v.Note = firstLines(res.Stacks, 80)
@@ -144,6 +210,9 @@ func c11Run(t *testing.T) func(c c11Case, v *vlib.Verdict) {
 		}
 	}
 }
+
+// c11HungVerdicts: verdicts of cases whose bubble froze, by case JSON (this process).
+var c11HungVerdicts = map[string]vlib.Verdict{}
 
 func c11Scenario(c c11Case, v *vlib.Verdict) {
 	p := vNewPair(memconn.Params{}, memconn.Params{}, 0)
@@ -248,6 +317,25 @@ func c11Scenario(c c11Case, v *vlib.Verdict) {
 			v.Label("unread-unreliable-tube-filled")
 		}
 	}
+	flood := func() {
+		if c.Flood == nil {
+			return
+		}
+		for i, f := range c11FloodFrames(*c.Flood) {
+			if c11TargetsControl(f, ctlID) {
+				continue
+			}
+			p.Net.B.Inject(c11Bytes(f, ctlID))
+			if i%32 == 31 {
+				time.Sleep(time.Millisecond)
+			}
+		}
+		time.Sleep(5 * time.Millisecond)
+		v.Labelf("flood-of-open-requests:%s:%s", []string{"unreliable", "reliable", "both-classes"}[c.Flood.Class%3], []string{"local-parity", "peer-parity", "every-identifier"}[c.Flood.Parity%3])
+	}
+	if c.Flood != nil && !c.Flood.After {
+		flood()
+	}
 	inconsistent := 0
 	for i, f := range c.Frames {
 		if c11TargetsControl(f, ctlID) {
@@ -267,7 +355,13 @@ func c11Scenario(c c11Case, v *vlib.Verdict) {
 			}
 		}
 	}
+	if c.Flood != nil && c.Flood.After {
+		flood()
+	}
 	time.Sleep(2 * time.Second)
+	if !c11LocalCreates(c, M, v, 10*time.Second) {
+		return
+	}
 	if !exchange(1000, "after-junk") {
 		return
 	}
@@ -384,6 +478,149 @@ func c11Scenario(c c11Case, v *vlib.Verdict) {
 	if c.Interleave {
 		v.Label("interleaved-honest-traffic")
 	}
+}
+
+// c11LocalCreates: the local application creates its own tubes. Each call must come back within bound - with a tube
+// of the local parity ("The server will create even numbered tubes") or with an error (ErrOutOfTubes when the peer
+// holds every identifier). Under the virtual clock a Create that spins never lets the bound elapse: the bubble
+// freezes and c11Run repeats this part in real time.
+func c11LocalCreates(c c11Case, M *Muxer, v *vlib.Verdict, bound time.Duration) bool {
+	for _, l := range c.Local {
+		class := "unreliable"
+		if l.Rel {
+			class = "reliable"
+		}
+		type res struct {
+			tb  Tube
+			err error
+		}
+		ch := make(chan res, 1)
+		go func() {
+			if l.Rel {
+				tb, err := M.CreateReliableTube(TubeType(l.TType))
+				if tb == nil {
+					ch <- res{nil, err} // (a nil *Reliable in a Tube would not compare equal to nil)
+					return
+				}
+				ch <- res{tb, err}
+				return
+			}
+			tb, err := M.CreateUnreliableTube(TubeType(l.TType))
+			if tb == nil {
+				ch <- res{nil, err}
+				return
+			}
+			ch <- res{tb, err}
+		}()
+		select {
+		case r := <-ch:
+			switch {
+			case r.err != nil:
+				v.Label("local-create:refused:" + class)
+				if r.err == ErrOutOfTubes {
+					v.Label("local-create:out-of-identifiers")
+				}
+			case r.tb == nil:
+				v.Failf("C11:local-create-returns-neither-tube-nor-error:"+class, "Create%sTube returned (nil, nil) after the peer's frames", class)
+				return false
+			case r.tb.GetID()%2 != M.idParity:
+				v.Failf("C11:local-create-returns-peer-parity:"+class, "the local application was given %s tube id %d; the muxer creates identifiers of parity %d", class, r.tb.GetID(), M.idParity)
+				return false
+			default:
+				v.Label("local-create:tube:" + class)
+			}
+		case <-time.After(bound):
+			v.Failf("C11:local-create-does-not-return:"+class, "Create of a local %s tube did not return within %v after the peer's frames (flood: %+v)", class, bound, c.Flood)
+			return false
+		}
+	}
+	return true
+}
+
+// c11LocalRealtime repeats, with real timers and outside any bubble, the part of a scenario that can freeze a bubble
+// without blocking anything durably - a local Create that spins while it holds the muxer lock: the same fixture, the
+// tubes the application does not read, the flood and the drawn frames (without their pauses), then the local Create
+// calls and Stop, each with a generous real-time bound.
+func c11LocalRealtime(c c11Case, v *vlib.Verdict) {
+	p := vNewPair(memconn.Params{}, memconn.Params{}, 0)
+	M, P := p.MB, p.MA
+	ctlCh := make(chan *Reliable, 1)
+	go func() {
+		first := true
+		for {
+			tb, err := M.Accept()
+			if err != nil {
+				return
+			}
+			if first {
+				first = false
+				if r, ok := tb.(*Reliable); ok {
+					ctlCh <- r
+					continue
+				}
+			}
+			if tb.Type() == c11HeldType {
+				continue
+			}
+			go tb.Close()
+		}
+	}()
+	stopBoth := func() {
+		go P.Stop()
+		go M.Stop()
+	}
+	ctlP, err := P.CreateReliableTube(TubeType(9))
+	if err != nil {
+		v.Inconclusive = "real-time re-run: control tube: " + err.Error()
+		stopBoth()
+		return
+	}
+	select {
+	case <-ctlCh:
+	case <-time.After(20 * time.Second):
+		v.Inconclusive = "real-time re-run: control tube not accepted"
+		stopBoth()
+		return
+	}
+	ctlID := ctlP.GetID()
+	inject := func(fs []c11Frame, skipCtl bool) {
+		for i, f := range fs {
+			if c11TargetsControl(f, ctlID) {
+				if skipCtl {
+					continue
+				}
+				f.Tube = int(ctlID) + 2
+			}
+			p.Net.B.Inject(c11Bytes(f, ctlID))
+			if i%32 == 31 {
+				time.Sleep(2 * time.Millisecond)
+			}
+		}
+		time.Sleep(20 * time.Millisecond)
+	}
+	for _, u := range c.Unread {
+		inject(c11FillFrames(u), false)
+	}
+	if c.Flood != nil && !c.Flood.After {
+		inject(c11FloodFrames(*c.Flood), true)
+	}
+	inject(c.Frames, false)
+	if c.Flood != nil && c.Flood.After {
+		inject(c11FloodFrames(*c.Flood), true)
+	}
+	time.Sleep(500 * time.Millisecond)
+	if !c11LocalCreates(c, M, v, 20*time.Second) {
+		go P.Stop()
+		return // (Stop of M would wait for the same lock)
+	}
+	done := make(chan struct{})
+	go func() { M.Stop(); close(done) }()
+	select {
+	case <-done:
+	case <-time.After(30 * time.Second):
+		v.Failf("C11:stop-does-not-return", "Muxer.Stop did not return within 30 s of real time after the local application created its tubes")
+	}
+	go P.Stop()
 }
 
 // c11PeerCompletesClose builds the frame with which a peer that kept track of the tube completes its close handshake:
@@ -506,6 +743,23 @@ func c11Gen(t *rapid.T) c11Case {
 		}
 		aim(c.Frames)
 		aim(c.StopJunk)
+	}
+	// one case in five: the peer requests a tube for every identifier of a parity (or of both); then, and in a quarter of
+	// the other cases, the local application creates 1-3 tubes of each class after the junk
+	if rapid.IntRange(0, 4).Draw(t, "withFlood") == 0 {
+		c.Flood = &c11Flood{
+			Class:  rapid.IntRange(0, 2).Draw(t, "floodclass"),
+			Parity: rapid.SampledFrom([]int{0, 0, 1, 2, 2}).Draw(t, "floodparity"),
+			Held:   rapid.Bool().Draw(t, "floodheld"),
+			Free:   rapid.SampledFrom([]int{0, 0, 0, 1, 2, 5}).Draw(t, "floodfree"),
+			After:  rapid.Bool().Draw(t, "floodafter"),
+		}
+	}
+	if c.Flood != nil || rapid.IntRange(0, 3).Draw(t, "withLocal") == 0 {
+		nr, nu := rapid.IntRange(1, 3).Draw(t, "localrel"), rapid.IntRange(1, 3).Draw(t, "localunrel")
+		for i := 0; i < nr+nu; i++ {
+			c.Local = append(c.Local, c11Local{Rel: (i%2 == 0 && i/2 < nr) || i/2 >= nu, TType: rapid.IntRange(0, 255).Draw(t, "localtype")})
+		}
 	}
 	// process-killing known findings are excluded by construction while they are open
 	if vlib.KnownOpen("panic:tubes.fromBytes:slice-bounds") {
